@@ -422,6 +422,8 @@ theorem idle_frame (cfg : Cfg) (base : Nat) (s : St) (sched : List Tid) (h : RIn
 /-- thread `p` has returned from its call: between two calls, the rest of its program still to run, result `r` -/
 def pRet (a : St) (rest : List Call) (r : Res) : Prop := a.P.pc = .idle ∧ a.P.prog = rest ∧ a.P.res = some r
 
+instance (a : St) (rest : List Call) (r : Res) : Decidable (pRet a rest r) := by unfold pRet; infer_instance
+
 /-- the linearisation step of a producer commit of `l` bytes: an own step `x → y` of thread `p` before which
 `buf + l ≤ cap` holds and which adds `l` to the producer cursor and changes nothing else `absRing` sees -/
 def LinP (cfg : Cfg) (l : Nat) (x y : St) : Prop :=
